@@ -7,6 +7,7 @@ def run(chk):
                 'labelings on trees with <= 7 leaves; non-binding limit = gpl >= number of leaves; non-trivial = pattern with an absence and >= 2 presences')
     chk.lean_obligations()
     gc.run_get_gls(chk, 'optimal')
+    gc.run_phybo_wordlist(chk, want='C08')
 
 
 def replay(chk, path):
